@@ -5,6 +5,8 @@ package main
 // os, and transitive may-effect summaries over the hybrid call graph.
 
 import (
+	"fmt"
+	"go/types"
 	"sort"
 	"strings"
 
@@ -27,6 +29,10 @@ var repoReadOnly = map[string]bool{
 	"RefExist": true, "ListCommits": true, "AllClocks": true, "GetOrCreateClock": true,
 	"Search": true, "DocCount": true, "Close": true, "Get": true, "Keys": true,
 	"ReadAll": true, "ReadBool": true, "ReadString": true, "ReadTimestamp": true,
+	// GetIndex opens a bleve index and creates its directory under <git dir>/git-bug/indexes on first
+	// use: a cache that is rebuilt from the entities, not repository data; what is then written
+	// through the Index it returns is classified (IndexOne/IndexBatch/Remove/Clear)
+	"GetIndex": true,
 }
 
 var billyWriters = map[string]bool{"Create": true, "OpenFile": true, "Remove": true, "Rename": true,
@@ -286,4 +292,124 @@ func effectsOfClass(m map[string]*EffWitness, classes ...string) []string {
 	}
 	sort.Strings(out)
 	return out
+}
+
+// checkEffectTableComplete (R0.1): package repository is the boundary at which write effects
+// are classified (its bodies are not followed). Every method of every interface declared
+// there must therefore be in the effect table, in the read-only table, or be shown read-only
+// by the bodies of its implementations in that package; a mutating method the table does not
+// know would make every who-may-write rule blind to it.
+func checkEffectTableComplete(c *Ctx) {
+	w := c.W
+	c.Doc("R0.1", "every method of the storage interfaces of package repository (the boundary where write effects are classified) is classified: in the effect table, in the reviewed read-only table, or read-only by every implementation in that package (no go-git mutator, no billy/os writer, no classified primitive reachable within the package)")
+	p := w.Pkg("repository")
+	sp := w.SSAPkg("repository")
+	if p == nil || sp == nil {
+		c.Undecided("R0.1", "anchor:repository", "repository", "package not loaded")
+		return
+	}
+	// concrete types of the package
+	var concrete []types.Type
+	scope := p.Types.Scope()
+	for _, n := range scope.Names() {
+		tn, ok := scope.Lookup(n).(*types.TypeName)
+		if !ok || tn.IsAlias() {
+			continue
+		}
+		if _, isIface := tn.Type().Underlying().(*types.Interface); isIface {
+			continue
+		}
+		concrete = append(concrete, tn.Type(), types.NewPointer(tn.Type()))
+	}
+	mutating := func(fn *ssa.Function) (bool, string) {
+		seen := map[*ssa.Function]bool{}
+		var walk func(f *ssa.Function, d int) (bool, string)
+		walk = func(f *ssa.Function, d int) (bool, string) {
+			if f == nil || seen[f] || d > 6 || len(f.Blocks) == 0 {
+				return false, ""
+			}
+			seen[f] = true
+			for _, cl := range Calls(f) {
+				_, m := lastDot(cl.Name)
+				if strings.Contains(cl.Name, "go-git/go-git") {
+					if _, isMut := gogitMutators[m]; isMut && m != "ResolveRevision" {
+						return true, cl.Name
+					}
+				}
+				if e := primEffect(cl.Name); e != "" && effClass(e) != "CLOCK" {
+					return true, cl.Name
+				}
+				if cl.Fn != nil && fnPkgPath(cl.Fn) == modPath+"/repository" {
+					if mut, why := walk(cl.Fn, d+1); mut {
+						return true, why
+					}
+				}
+			}
+			for _, a := range f.AnonFuncs {
+				if mut, why := walk(a, d+1); mut {
+					return true, why
+				}
+			}
+			return false, ""
+		}
+		return walk(fn, 0)
+	}
+	nMethods := 0
+	for _, n := range scope.Names() {
+		tn, ok := scope.Lookup(n).(*types.TypeName)
+		if !ok || !tn.Exported() {
+			continue
+		}
+		iface, isIface := tn.Type().Underlying().(*types.Interface)
+		if !isIface || n == "TestedRepo" {
+			continue
+		}
+		nEff, nRO, nAuto := 0, 0, 0
+		for i := 0; i < iface.NumMethods(); i++ {
+			m := iface.Method(i)
+			nMethods++
+			c.Sites++
+			name := "repository." + n + "." + m.Name()
+			key := "boundary:" + m.Name()
+			pos := w.Pos(m.Pos())
+			if e := primEffect(name); e != "" {
+				nEff++
+				continue
+			}
+			if repoReadOnly[m.Name()] {
+				nRO++
+				continue
+			}
+			// auto-classification by the implementations
+			impls, bad := 0, ""
+			for _, ct := range concrete {
+				if !types.Implements(ct, iface) {
+					continue
+				}
+				sel := w.Prog.MethodSets.MethodSet(ct).Lookup(m.Pkg(), m.Name())
+				if sel == nil {
+					continue
+				}
+				fn := w.Prog.MethodValue(sel)
+				if fn == nil {
+					continue
+				}
+				impls++
+				if mut, why := mutating(fn); mut {
+					bad = funcName(fn) + " reaches " + why
+				}
+			}
+			switch {
+			case bad != "":
+				c.Violate("R0.1", key, pos, "this method of the storage boundary writes ("+bad+") but is not in the effect table: the rules about who may write (authentication gate, ref-last, merge reports) cannot see calls to it")
+			default:
+				// read-only by its implementations (or an accessor without implementation in the package)
+				nAuto++
+			}
+		}
+		c.Hold("R0.1", "boundary:"+n, w.Pos(tn.Pos()), fmt.Sprintf("%d methods: %d in the effect table, %d reviewed read-only, %d read-only by implementation", iface.NumMethods(), nEff, nRO, nAuto))
+	}
+	if nMethods < 40 {
+		c.Violate("R0.1", "expected:boundary-methods", "repository", fmt.Sprintf("%d interface methods found at the storage boundary (reference 60+)", nMethods))
+	}
 }
